@@ -193,6 +193,7 @@ type c02Site struct {
 	Call    string // expression over loop variables x, y producing the value handed to em
 	Expect  []string
 	ByIndex bool     // the loop variables are indexes into the value tables
+	Seq     bool     // all evaluations run inside ONE activation of a function looping over the parallel tables Xs / Ys
 	KExpr   string   // constant-rounding sites: the Go constant expression converted to the typed destination
 	KVal    *big.Rat // its exact value
 	KName   string
@@ -212,6 +213,9 @@ func (s *c02Site) desc() map[string]any {
 	if s.Paren != "" {
 		d["paren"] = s.Paren
 	}
+	if s.Seq {
+		d["one_activation"] = true
+	}
 	if s.KExpr != "" {
 		d["constant"] = s.KExpr
 	}
@@ -222,6 +226,9 @@ func (s *c02Site) desc() map[string]any {
 func (s *c02Site) operands(i int) (x, y *c02V) {
 	if s.Ys == nil {
 		return &s.Xs[i], nil
+	}
+	if s.Seq {
+		return &s.Xs[i], &s.Ys[i]
 	}
 	return &s.Xs[i/len(s.Ys)], &s.Ys[i%len(s.Ys)]
 }
@@ -397,6 +404,9 @@ func (g *c02Gen) binarySites(cat, op string, k, kc *c02Kind, xs, ys []c02V, ctxs
 		yk = kc
 	}
 	mayPanic := cat == "shift" && yk.Signed || (op == "/" || op == "%") && k.isInt()
+	if region == "" {
+		g.seqBinary(cat, op, k, kc, xs, ys, len(cmpdCtxs) > 0, forms, salt)
+	}
 	expect := func(s *c02Site) {
 		n := len(s.Xs)
 		if s.Ys != nil {
@@ -900,6 +910,7 @@ func (g *c02Gen) enumerate() {
 			g.unarySites(op, k, xs, valCtx)
 		}
 		g.incdecSites(k, xs)
+		g.seqUnary(k, xs, salt)
 	}
 	// floats
 	for _, k := range c02FloatKinds {
@@ -969,6 +980,7 @@ func (g *c02Gen) enumerate() {
 		}
 		for _, to := range num {
 			g.convSites(from, to, xs, convCtx)
+			g.seqConv(from, to, xs, from.Bits*131+to.Bits+len(from.Name)*7+len(to.Name))
 		}
 		if from.isInt() {
 			g.convSites(from, c02StringKind, append(xs, c02RuneValues(from)...), []string{"ret", "ifc"})
@@ -978,6 +990,11 @@ func (g *c02Gen) enumerate() {
 	g.convSites(c02CplxKinds[1], c02CplxKinds[0], c02CplxValues(c02CplxKinds[1]), []string{"ret", "ifc"})
 	g.convSites(c02CplxKinds[0], c02CplxKinds[0], c02CplxValues(c02CplxKinds[0]), []string{"ret"})
 	// constants chosen for float rounding -> typed destinations (always also compiled by Go)
+	for i, k := range append(append([]*c02Kind{}, c02FloatKinds...), c02CplxKinds...) {
+		g.seqUnary(k, c02Values(k), 1000+i)
+	}
+	g.seqUnary(c02BoolKind, c02BoolValues(), 2000)
+	g.logicSites()
 	g.constSites()
 }
 
@@ -1122,7 +1139,9 @@ func c02Render(name string, sites []*c02Site) *c02Prog {
 		if s.ByIndex {
 			lv = ""
 		}
-		if s.Ys != nil {
+		if s.Seq {
+			fmt.Fprintf(&drivers, "\t%s\n", s.Call)
+		} else if s.Ys != nil {
 			fmt.Fprintf(&drivers, "\tfor %sx := range %s {\n\t\tfor %sy := range %s {\n\t\t\tem(%s)\n\t\t}\n\t}\n", lv, tabName(s.Xs), lv, tabName(s.Ys), s.Call)
 		} else {
 			fmt.Fprintf(&drivers, "\tfor %sx := range %s {\n\t\tem(%s)\n\t}\n", lv, tabName(s.Xs), s.Call)
@@ -1407,7 +1426,7 @@ func c02CoqCase(id int, s *c02Site, i int, impl, ref string) (kind, text string)
 			ck = fmt.Sprintf("(CBin %s %s)", c02CoqOp[s.Op], form)
 		}
 	case "cmp":
-		brn := s.Ctx == "if" || s.Ctx == "for" || s.Ctx == "sw" || strings.HasPrefix(s.Ctx, "and") || strings.HasPrefix(s.Ctx, "or")
+		brn := s.Ctx == "if" || s.Ctx == "for" || s.Ctx == "forpost" || s.Ctx == "sw" || strings.HasPrefix(s.Ctx, "and") || strings.HasPrefix(s.Ctx, "or")
 		ck = fmt.Sprintf("(CCmp %s %s %s)", c02CoqOp[s.Op], form, coqBool(brn))
 		resK = nil
 	case "un":
@@ -1674,6 +1693,10 @@ func runC02(args []string) error {
 			sm.count(s.Cat + ":" + s.K.Class)
 			sm.count("ctx:" + s.Ctx)
 			sm.count("form:" + s.Form)
+			if s.Seq {
+				sm.count("one_activation")
+				sm.count("seqcell:" + s.Cat + "/" + s.Ctx)
+			}
 			if s.Paren != "" {
 				sm.count("paren:" + s.Paren)
 				sm.count("cell:" + s.Cat + "/" + s.Ctx + "/" + s.Paren)
